@@ -111,6 +111,9 @@ def build_harness(cmd_name, race=False, tags="verif"):
     cmd = ["go", "build", "-modfile=" + modfile, "-tags", tags, "-o", out]
     if race:
         cmd.append("-race")
+    if os.environ.get("VERIF_COVER"):
+        # coverage survey of the library under the harnesses (runner/cover_survey.py): GOCOVERDIR is inherited by the binaries
+        cmd += ["-cover", "-coverpkg=github.com/protolambda/zrnt/..."]
     cmd.append("./cmd/" + cmd_name)
     p = run(cmd, cwd=HARNESS_DIR, env=GO_ENV, timeout=1200)
     if p.returncode != 0:
